@@ -1,4 +1,5 @@
-//! C06 end-to-end: `e2e retry n=<nodes> sh=<shards> pol=<def|fall|down> idem=<0|1> kind=<exec|query|batch> cl=<q|serial>
+//! C06 end-to-end: `e2e retry n=<nodes> sh=<shards> pol=<def|fall|down> idem=<0|1> kind=<exec|query|batch>
+//! cl=<q|serial|localserial> via=<session|caching>
 //! seed=<s> scripts=<o.o.o/o.o/...>`
 //!
 //! One logical request per script, sent one after another through a real Session; the k-th frame of a logical
@@ -7,10 +8,15 @@
 //! present), `ov` Overloaded, `se` ServerError, `tr` TruncateError, `wt` WriteTimeout SIMPLE, `wtb` WriteTimeout
 //! BATCH_LOG, `inv` Invalid, `cl` the node closes the connection without answering.
 //!
+//! `via=caching`: the requests go through a `CachingSession` (`execute_unpaged(text, values)`; `batch` with an
+//! unprepared statement, i.e. through `prepare_batch`) - idempotence, retry policy and consistency are set on the
+//! Statement / Batch handed to it and must still govern the retries.
+//!
 //! ORACLE (C06's statement, counted at the nodes; no model, no policy code involved):
 //!  * a request not marked idempotent is sent again only directly after Unavailable / IsBootstrapping / ReadTimeout -
 //!    never after a closed connection, Overloaded / ServerError / TruncateError, WriteTimeout (or anything else);
-//!  * with the default policy a request at serial consistency is sent once;
+//!  * with the default policy a request at serial consistency (SERIAL or LOCAL_SERIAL) is sent once;
+//!  * with the fall-through policy every request is sent once (the driver sends exactly the attempts the policy decided);
 //!  * the number of frames of one request is at most (number of nodes) + 2;
 //!  * nothing is sent after an attempt was answered `ok`, and then the caller gets Ok.
 use super::common::*;
@@ -34,7 +40,7 @@ pub fn generate(rng: &mut Rng, tier: Tier, emit: &mut dyn FnMut(String)) {
         // the statement is about non-idempotent requests: most cases
         let idem = if i % 3 == 2 { 1 } else { 0 };
         let kind = *rng.pick(&["exec", "exec", "query", "batch"]);
-        let cl = if pol == "def" && rng.chance(1, 8) { "serial" } else { "q" };
+        let cl = if pol == "def" && rng.chance(1, 8) { *rng.pick(&["serial", "localserial"]) } else { "q" };
         let n_req = 3 + rng.below(3);
         let mut scripts = Vec::new();
         for _ in 0..n_req {
@@ -57,13 +63,14 @@ pub fn generate(rng: &mut Rng, tier: Tier, emit: &mut dyn FnMut(String)) {
             scripts.push(s.join("."));
         }
         emit(format!(
-            "e2e retry n={} sh={} pol={} idem={} kind={} cl={} seed={} scripts={}",
+            "e2e retry n={} sh={} pol={} idem={} kind={} cl={} via={} seed={} scripts={}",
             n,
             sh,
             pol,
             idem,
             kind,
             cl,
+            if i % 4 == 1 { "caching" } else { "session" },
             rng.below(1 << 32),
             scripts.join("/")
         ));
@@ -101,7 +108,9 @@ fn request_of(r: &Req, n_req: usize) -> Option<usize> {
     let by_key = |v: &Option<Vec<u8>>| (0..n_req).find(|i| v.as_deref() == Some(&key_of(*i)[..]));
     let by_text = |t: &str| (0..n_req).find(|i| t == text_of(*i));
     match &r.parsed {
-        Parsed::Execute { params, .. } => params.values.first().and_then(by_key),
+        Parsed::Execute { id, params, .. } => {
+            params.values.first().and_then(by_key).or_else(|| (0..n_req).find(|i| *id == stmt_id(&text_of(*i))))
+        }
         Parsed::Query { text, .. } => by_text(text),
         Parsed::Batch { statements, .. } => statements.iter().find_map(|s| match s {
             BatchStmt::Query(t, _) => by_text(t),
@@ -117,7 +126,11 @@ pub fn run(words: &[&str], ctx: &mut Ctx) -> String {
         return "bad-case".into();
     };
     let (pol, kind, cl) = (p.str("pol").unwrap_or("def"), p.str("kind").unwrap_or("exec"), p.str("cl").unwrap_or("q"));
-    if !(1..=8).contains(&n) || sh > 8 || !["def", "fall", "down"].contains(&pol) || !["exec", "query", "batch"].contains(&kind) || !["q", "serial"].contains(&cl) {
+    if !(1..=8).contains(&n) || sh > 8 || !["def", "fall", "down"].contains(&pol) || !["exec", "query", "batch"].contains(&kind) || !["q", "serial", "localserial"].contains(&cl) {
+        return "bad-case".into();
+    }
+    let via = p.str("via").unwrap_or("session");
+    if !["session", "caching"].contains(&via) {
         return "bad-case".into();
     }
     let Some(scripts_s) = p.str("scripts") else { return "bad-case".into() };
@@ -160,34 +173,58 @@ pub fn run(words: &[&str], ctx: &mut Ctx) -> String {
             Ok(ps) => ps,
             Err(_) => return "e2e-skip prepare-failed".to_owned(),
         };
+        let consistency = match cl {
+            "serial" => Some(Consistency::Serial),
+            "localserial" => Some(Consistency::LocalSerial),
+            _ => None,
+        };
         ps.set_is_idempotent(idem != 0);
         ps.set_retry_policy(Some(Arc::clone(&policy)));
-        if cl == "serial" {
-            ps.set_consistency(Consistency::Serial);
+        if let Some(c) = consistency {
+            ps.set_consistency(c);
         }
+        let configured = |text: String| {
+            let mut st = Statement::new(text);
+            st.set_is_idempotent(idem != 0);
+            st.set_retry_policy(Some(Arc::clone(&policy)));
+            if let Some(c) = consistency {
+                st.set_consistency(c);
+            }
+            st
+        };
+        // (the CachingSession owns the Session)
+        let (plain, caching): (Option<scylla::client::session::Session>, Option<scylla::client::caching_session::CachingSession>) = if via == "caching" {
+            (None, Some(scylla::client::caching_session::CachingSession::from(session, 4)))
+        } else {
+            (Some(session), None)
+        };
+        let session: &scylla::client::session::Session = match (&plain, &caching) {
+            (Some(s), _) => s,
+            (_, Some(cs)) => cs.get_session(),
+            _ => unreachable!(),
+        };
         let mut results: Vec<bool> = Vec::new();
         for q in 0..n_req {
-            let ok = match kind {
-                "exec" => session.execute_unpaged(&ps, (key_of(q), 0i32)).await.is_ok(),
-                "query" => {
-                    let mut st = Statement::new(text_of(q));
-                    st.set_is_idempotent(idem != 0);
-                    st.set_retry_policy(Some(Arc::clone(&policy)));
-                    if cl == "serial" {
-                        st.set_consistency(Consistency::Serial);
-                    }
-                    session.query_unpaged(st, ()).await.is_ok()
-                }
+            let ok = match (kind, &caching) {
+                ("exec", None) => session.execute_unpaged(&ps, (key_of(q), 0i32)).await.is_ok(),
+                ("exec", Some(cs)) => cs.execute_unpaged(configured(INSERT.to_owned()), (key_of(q), 0i32)).await.is_ok(),
+                ("query", None) => session.query_unpaged(configured(text_of(q)), ()).await.is_ok(),
+                // prepared by the CachingSession, executed without values
+                ("query", Some(cs)) => cs.execute_unpaged(configured(text_of(q)), ()).await.is_ok(),
                 _ => {
                     let mut b = Batch::new(BatchType::Logged);
                     b.append_statement(ps.clone());
                     b.append_statement(Statement::new("INSERT INTO ks.t (pk, v) VALUES (0x00, 1)"));
                     b.set_is_idempotent(idem != 0);
                     b.set_retry_policy(Some(Arc::clone(&policy)));
-                    if cl == "serial" {
-                        b.set_consistency(Consistency::Serial);
+                    if let Some(c) = consistency {
+                        b.set_consistency(c);
                     }
-                    session.batch(&b, ((key_of(q), 0i32), ())).await.is_ok()
+                    match &caching {
+                        None => session.batch(&b, ((key_of(q), 0i32), ())).await.is_ok(),
+                        // the unprepared statement sends the batch through prepare_batch
+                        Some(cs) => cs.batch(&b, ((key_of(q), 0i32), ())).await.is_ok(),
+                    }
                 }
             };
             results.push(ok);
@@ -199,7 +236,7 @@ pub fn run(words: &[&str], ctx: &mut Ctx) -> String {
         let mut summary = Vec::new();
         for q in 0..n_req {
             let sv: Vec<&str> = served[q].iter().map(|x| x.0.as_str()).collect();
-            let what = format!("request {} ({}, {}, policy {}, cl {})", q, if idem != 0 { "idempotent" } else { "NOT idempotent" }, kind, pol, cl);
+            let what = format!("request {} ({}, {}, policy {}, cl {}, via {})", q, if idem != 0 { "idempotent" } else { "NOT idempotent" }, kind, pol, cl, via);
             if idem == 0 {
                 for k in 1..sv.len() {
                     if !PROOF.contains(&sv[k - 1]) {
@@ -215,7 +252,10 @@ pub fn run(words: &[&str], ctx: &mut Ctx) -> String {
                     }
                 }
             }
-            if cl == "serial" && pol == "def" && sv.len() > 1 {
+            if pol == "fall" && sv.len() > 1 {
+                ctx.fail(format!("e2e retry: {} was sent {} times although the fall-through policy never retries; served {:?}", what, sv.len(), sv));
+            }
+            if cl != "q" && pol == "def" && sv.len() > 1 {
                 ctx.fail(format!("e2e retry: {} at serial consistency was sent {} times by the default policy", what, sv.len()));
             }
             if sv.len() > n + 2 {
